@@ -19,6 +19,8 @@ import (
 	"path/filepath"
 	"runtime"
 	"sort"
+	"sync"
+	"time"
 	"unicode/utf8"
 
 	"github.com/pinealctx/neptune/tex"
@@ -43,6 +45,8 @@ type act struct {
 	E   string  `json:"e"`
 	Pos int     `json:"pos"`
 	S   []rstep `json:"s"`
+	I   int     `json:"i"` // poke: index into Bytes()
+	H   int     `json:"h"` // growhuge: which unsatisfiable size
 	// first line of a plan
 	Ctor string `json:"ctor"`
 	Init []int  `json:"init"`
@@ -62,6 +66,12 @@ func (a act) rec() tr.E {
 		return tr.E{"op": a.Op, "p": ints(a.P)}
 	case "wbyte":
 		return tr.E{"op": a.Op, "c": a.C}
+	case "poke":
+		return tr.E{"op": a.Op, "i": a.I, "c": a.C}
+	case "pipefrom", "pipeto":
+		return tr.E{"op": a.Op, "p": ints(a.P)}
+	case "growhuge":
+		return tr.E{"op": a.Op, "h": a.H}
 	case "wrune":
 		return tr.E{"op": a.Op, "r": a.R}
 	case "read", "next", "trunc", "grow":
@@ -118,11 +128,20 @@ type subject struct {
 	b        bufAPI
 	nilStr   func() string
 	rewrite  func(pos int, p []byte)
+	peer     func() bufAPI // a fresh empty buffer of the same type
 	tooLarge error
+	scratch  []byte // the caller's input slice, reused across calls
+	dst      []byte // the caller's Read destination, reused across calls
 }
 
 func newSubject(name, ctor string, init []byte, size, spare int) *subject {
 	mk := func() []byte { // NewBuffer takes ownership: each subject gets its own copy
+		if spare < 0 {
+			if len(init) == 0 {
+				return nil // NewBuffer(nil)
+			}
+			spare = 0
+		}
 		buf := make([]byte, len(init), len(init)+spare)
 		copy(buf, init)
 		return buf
@@ -144,6 +163,7 @@ func newSubject(name, ctor string, init []byte, size, spare int) *subject {
 		return &subject{name: name, b: b,
 			nilStr:   func() string { return (*tex.Buffer)(nil).String() },
 			rewrite:  b.ReWrite,
+			peer:     func() bufAPI { return new(tex.Buffer) },
 			tooLarge: tex.ErrTooLarge}
 	}
 	var b *bytes.Buffer
@@ -163,6 +183,7 @@ func newSubject(name, ctor string, init []byte, size, spare int) *subject {
 		nilStr: func() string { return (*bytes.Buffer)(nil).String() },
 		// reference meaning of ReWrite while nothing has been consumed: overwrite in place
 		rewrite:  func(pos int, p []byte) { copy(b.Bytes()[pos:], p) },
+		peer:     func() bufAPI { return new(bytes.Buffer) },
 		tooLarge: bytes.ErrTooLarge}
 }
 
@@ -173,11 +194,68 @@ type reply struct {
 	V   int
 	Err string
 	B   []int
+	Mut bool // the slice the harness passed in came back modified
+	// kept as returned, rendered by rec() (lazy histories: when the history is over)
+	kept    bool
+	keepStr string
+	keepBuf []byte
 }
 
-func (r reply) rec() tr.E { return tr.E{"n": r.N, "v": r.V, "err": r.Err, "b": ints(r.B)} }
+func (r reply) rec() tr.E {
+	if r.kept {
+		if r.keepBuf != nil {
+			r.B = tr.Ints(r.keepBuf)
+		} else {
+			r.B = tr.Str(r.keepStr)
+		}
+	}
+	return tr.E{"n": r.N, "v": r.V, "err": r.Err, "b": ints(r.B)}
+}
 
 var errBoom = errors.New("boom")
+
+// an error that wraps io.EOF is not io.EOF: bytes.Buffer compares with ==, so ReadFrom must hand it back
+var errWrapEOF = fmt.Errorf("source closed: %w", io.EOF)
+
+// kindErr: the error value a scripted reader / writer returns for an error kind of the plan
+func kindErr(kind string) error {
+	switch kind {
+	case "nil", "":
+		return nil
+	case "EOF":
+		return io.EOF
+	case "wrapEOF":
+		return errWrapEOF
+	case "unexpEOF":
+		return io.ErrUnexpectedEOF
+	case "short write":
+		return io.ErrShortWrite
+	}
+	return errBoom
+}
+
+// clamp keeps an integer that came out of the code under test inside what the trace writer and TLC
+// can hold; a clamped value is still wrong for the specification, but it is TLC that says so.
+func clamp(n int) int {
+	if n > math.MaxInt32 {
+		return math.MaxInt32
+	}
+	if n < -math.MaxInt32 {
+		return -math.MaxInt32
+	}
+	return n
+}
+
+// wide turns the plan's stand-ins for the ends of the int range into the real thing
+func wide(n int) int {
+	switch {
+	case n >= math.MaxInt32:
+		return math.MaxInt
+	case n <= -math.MaxInt32:
+		return math.MinInt
+	}
+	return n
+}
 
 // errName keeps the identity of the sentinel errors visible: an error that merely prints like
 // io.EOF is not io.EOF.
@@ -191,10 +269,14 @@ func errName(err error) string {
 		return "boom"
 	case io.ErrShortWrite:
 		return "short write"
+	case errWrapEOF:
+		return "wrapEOF"
+	case io.ErrUnexpectedEOF:
+		return "unexpEOF"
 	}
 	s := err.Error()
 	switch s {
-	case "nil", "EOF", "boom", "short write":
+	case "nil", "EOF", "boom", "short write", "wrapEOF", "unexpEOF":
 		return s + " (a different error value)"
 	}
 	return s
@@ -232,25 +314,22 @@ func (r *scriptReader) Read(p []byte) (int, error) {
 	}
 	st := r.steps[r.i]
 	r.i++
-	if st.E == "neg" {
+	switch st.E {
+	case "neg":
 		return -1, nil
+	case "panic":
+		panic("reader panic")
 	}
 	n := copy(p, toBytes(st.B))
 	if n < len(st.B) {
 		r.small = true
 	}
-	switch st.E {
-	case "EOF":
-		return n, io.EOF
-	case "boom":
-		return n, errBoom
-	}
-	return n, nil
+	return n, kindErr(st.E)
 }
 
 type scriptWriter struct {
 	k     int
-	e     error
+	e     string
 	calls int
 	got   []byte
 }
@@ -258,11 +337,38 @@ type scriptWriter struct {
 func (w *scriptWriter) Write(p []byte) (int, error) {
 	w.calls++
 	w.got = append(w.got, p...)
-	return w.k, w.e
+	if w.e == "panic" {
+		panic("writer panic")
+	}
+	return w.k, kindErr(w.e)
 }
 
-// do performs one call; a panic of the code under test becomes the reply "panic: ...".
-func (s *subject) do(a act) (r reply) {
+// input copies a payload into the subject's one input buffer, which is reused from call to call the
+// way a caller reuses its scratch slice; priv is the harness's private copy to compare with.
+func (s *subject) input(p []int) (in, priv []byte) {
+	priv = toBytes(p)
+	if cap(s.scratch) < len(priv) {
+		s.scratch = make([]byte, 0, 2*len(priv)+16)
+	}
+	in = s.scratch[:len(priv)]
+	copy(in, priv)
+	return in, priv
+}
+
+// spoil overwrites the input slice after the call returned: the buffer has copied it or it has a bug
+func spoil(in []byte) {
+	for i := range in {
+		in[i] = 0xA5 ^ byte(i)
+	}
+}
+
+var hugeSizes = []int{math.MaxInt, math.MaxInt - 1, 1 << 62, 1 << 50}
+
+// do performs one call; a panic of the code under test becomes the reply "panic: ..." (same record
+// shape as every reply, so TLC can compare it).  lazy: aggregates the call handed back that the
+// caller may keep (the string of String(), the slice filled by Read) are kept AS RETURNED and
+// rendered when the history is over.
+func (s *subject) do(a act, lazy bool) (r reply) {
 	defer func() {
 		if p := recover(); p != nil {
 			r = reply{Err: "panic: " + s.panicText(p)}
@@ -271,35 +377,49 @@ func (s *subject) do(a act) (r reply) {
 	b := s.b
 	switch a.Op {
 	case "write":
-		n, err := b.Write(toBytes(a.P))
-		return reply{N: n, Err: errName(err)}
+		in, priv := s.input(a.P)
+		n, err := b.Write(in)
+		r = reply{N: clamp(n), Err: errName(err), Mut: !bytes.Equal(in, priv)}
+		spoil(in)
+		return r
 	case "wstr":
 		n, err := b.WriteString(string(toBytes(a.P)))
-		return reply{N: n, Err: errName(err)}
+		return reply{N: clamp(n), Err: errName(err)}
 	case "wbyte":
 		return reply{Err: errName(b.WriteByte(byte(a.C)))}
 	case "wrune":
 		n, err := b.WriteRune(rune(a.R))
-		return reply{N: n, Err: errName(err)}
+		return reply{N: clamp(n), Err: errName(err)}
 	case "read":
-		p := make([]byte, a.N)
+		var p []byte
+		if lazy {
+			p = make([]byte, a.N) // kept until the history is over
+		} else {
+			if cap(s.dst) < a.N {
+				s.dst = make([]byte, 2*a.N+16)
+			}
+			p = s.dst[:a.N] // the caller's one destination slice, reused
+		}
 		n, err := b.Read(p)
-		return reply{N: n, Err: errName(err), B: tr.Ints(p[:n])}
+		if lazy {
+			return reply{N: clamp(n), Err: errName(err), keepBuf: p[:n], kept: true}
+		}
+		return reply{N: clamp(n), Err: errName(err), B: tr.Ints(p[:n])}
 	case "next":
-		p := b.Next(a.N)
-		return reply{N: len(p), Err: "nil", B: tr.Ints(p)}
+		p := b.Next(wide(a.N))
+		return reply{N: len(p), Err: "nil", B: tr.Ints(p)} // valid only until the next call: rendered at once
 	case "rbyte":
 		c, err := b.ReadByte()
 		return reply{V: int(c), Err: errName(err)}
 	case "rrune":
 		c, n, err := b.ReadRune()
-		return reply{N: n, V: int(c), Err: errName(err)}
+		return reply{N: clamp(n), V: int(c), Err: errName(err)}
 	case "unbyte":
 		return reply{Err: errName(b.UnreadByte())}
 	case "unrune":
 		return reply{Err: errName(b.UnreadRune())}
 	case "trunc":
-		b.Truncate(a.N)
+		b.Truncate(wide(a.N))
 		return reply{Err: "nil"}
 	case "reset":
 		b.Reset()
@@ -308,50 +428,106 @@ func (s *subject) do(a act) (r reply) {
 		b.Grow(a.N)
 		return reply{Err: "nil"}
 	case "growhuge":
-		b.Grow(math.MaxInt)
+		n := math.MaxInt
+		if a.H >= 1 && a.H <= len(hugeSizes) {
+			n = hugeSizes[a.H-1]
+		} else if c := b.Cap(); a.H == 0 && c > 0 && c < 1<<30 {
+			n = math.MaxInt - 2*c // the last size the overflow guard of grow() lets through
+		}
+		b.Grow(n)
 		return reply{Err: "nil"}
 	case "readfrom":
 		rd := &scriptReader{steps: a.S}
 		n, err := b.ReadFrom(rd)
 		if rd.small {
-			return reply{N: int(n), V: rd.calls, Err: "Read was offered fewer than MinRead bytes"}
+			return reply{N: clamp(int(n)), V: rd.calls, Err: "Read was offered fewer than MinRead bytes"}
 		}
-		return reply{N: int(n), V: rd.calls, Err: errName(err)}
+		return reply{N: clamp(int(n)), V: rd.calls, Err: errName(err)}
 	case "writeto":
-		w := &scriptWriter{k: a.K}
-		if a.E == "boom" {
-			w.e = errBoom
-		}
+		w := &scriptWriter{k: wide(a.K), e: a.E}
 		n, err := b.WriteTo(w)
-		return reply{N: int(n), V: w.calls, Err: errName(err), B: tr.Ints(w.got)}
+		return reply{N: clamp(int(n)), V: w.calls, Err: errName(err), B: tr.Ints(w.got)}
+	case "pipefrom": // one caller, two buffers of the same type: this one drains the other
+		peer := s.peer()
+		peer.Write(toBytes(a.P))
+		n, err := b.ReadFrom(peer)
+		return reply{N: clamp(int(n)), V: clamp(peer.Len()), Err: errName(err)}
+	case "pipeto":
+		peer := s.peer()
+		peer.Write(toBytes(a.P))
+		n, err := b.WriteTo(peer)
+		return reply{N: clamp(int(n)), Err: errName(err), B: tr.Ints(peer.Bytes())}
 	case "len":
-		return reply{N: b.Len(), Err: "nil"}
+		return reply{N: clamp(b.Len()), Err: "nil"}
 	case "bytes":
-		return reply{Err: "nil", B: tr.Ints(b.Bytes())}
+		return reply{Err: "nil", B: tr.Ints(b.Bytes())} // aliases the buffer by contract: rendered at once
+	case "poke":
+		if bs := b.Bytes(); a.I >= 0 && a.I < len(bs) {
+			bs[a.I] = byte(a.C)
+		}
+		return reply{Err: "nil"}
 	case "string":
-		return reply{Err: "nil", B: tr.Str(b.String())}
+		str := b.String()
+		if lazy {
+			return reply{Err: "nil", keepStr: str, kept: true} // a Go string never changes
+		}
+		return reply{Err: "nil", B: tr.Str(str)}
 	case "nilstr":
 		return reply{Err: "nil", B: tr.Str(s.nilStr())}
 	case "rewrite":
-		s.rewrite(a.Pos, toBytes(a.P))
-		return reply{Err: "nil"}
+		in, priv := s.input(a.P)
+		s.rewrite(wide(a.Pos), in)
+		r = reply{Err: "nil", Mut: !bytes.Equal(in, priv)}
+		spoil(in)
+		return r
 	}
 	tr.Fatal("unknown op %q", a.Op)
 	return
 }
 
-func (s *subject) obs() tr.E {
-	return tr.E{"len": s.b.Len(), "b": tr.Ints(s.b.Bytes())}
+// obs: what the buffer exposes after a call.  An observer that panics or answers nonsense is an
+// observation too (len -1 / clamped values), not a harness failure.
+func (s *subject) obs() (o tr.E) {
+	defer func() {
+		if p := recover(); p != nil {
+			o = tr.E{"len": -1, "b": []int{}, "cap": -1, "panic": s.panicText(p)}
+		}
+	}()
+	return tr.E{"len": clamp(s.b.Len()), "b": tr.Ints(s.b.Bytes()), "cap": clamp(s.b.Cap())}
 }
 
 // ---------------------------------------------------------------- one history on both buffers
 
+// watchdog: a call into tex.Buffer that does not come back (ReadFrom spinning on an empty window,
+// a reader loop that never sees EOF) is an observation.  The main goroutine publishes what it is
+// doing; the watchdog goroutine, if nothing moved for hangAfter, writes a `hang` event to the tex
+// trace (rejected by the trace spec), the statistics, and ends the process normally.
+var (
+	wdMu      sync.Mutex
+	wdInTex   bool
+	wdAct     tr.E
+	wdTick    uint64
+	hangAfter = 20 * time.Second
+)
+
+func wdEnter(a tr.E) { wdMu.Lock(); wdInTex, wdAct = true, a; wdTick++; wdMu.Unlock() }
+func wdLeave()       { wdMu.Lock(); wdInTex = false; wdTick++; wdMu.Unlock() }
+
+type pending struct {
+	a   tr.E
+	r   reply
+	obs tr.E
+}
+
 type run struct {
 	tex, std     *subject
 	wt, ws       *tr.W
-	dirty        bool // some byte consumed since construction / Reset / Truncate(0) (as the spec's `dirty`)
-	lastRead     bool // previous call was a read that consumed something (generator hint only)
-	lastGrow     bool // previous call was Grow (generator hint only)
+	lazy         bool      // keep returned aggregates as returned; write this history's events at its end
+	pt, ps       []pending // lazy: the events of this history so far
+	dirty        bool      // some byte consumed since construction / Reset / Truncate(0) (as the spec's `dirty`)
+	lastRead     string    // previous call was this read and it consumed something (generator hint only)
+	lastUnread   string    // previous call was an Unread* right after that read (generator hint only)
+	lastGrow     bool      // previous call was Grow (generator hint only)
 	paths        map[string]int
 	ops          map[string]int
 	diverged     bool
@@ -359,33 +535,65 @@ type run struct {
 	afterGrowUnr int
 }
 
-func start(wt, ws *tr.W, src, ctor string, init []byte, size, spare int, paths, ops map[string]int) *run {
-	r := &run{wt: wt, ws: ws, paths: paths, ops: ops}
-	r.tex = newSubject("tex", ctor, init, size, spare)
-	r.std = newSubject("std", ctor, init, size, spare)
-	for _, s := range []*subject{r.tex, r.std} {
-		e := tr.E{"ev": "reset", "subject": s.name, "src": src, "ctor": ctor, "init": tr.Ints(init),
-			"size": size, "spare": spare, "cap": s.b.Cap(), "obs": s.obs()}
-		if s == r.tex {
+// ctor runs a constructor; one that panics is recorded as a buffer nobody can have (len -1).
+func ctor(name, kind string, init []byte, size, spare int) (s *subject, o tr.E, c int) {
+	defer func() {
+		if p := recover(); p != nil {
+			s, c = nil, -1
+			o = tr.E{"len": -1, "b": []int{}, "cap": -1, "panic": fmt.Sprint(p)}
+		}
+	}()
+	s = newSubject(name, kind, init, size, spare)
+	return s, s.obs(), clamp(s.b.Cap())
+}
+
+func start(wt, ws *tr.W, src, kind string, init []byte, size, spare int, lazy bool, paths, ops map[string]int) *run {
+	r := &run{wt: wt, ws: ws, lazy: lazy, paths: paths, ops: ops}
+	for _, name := range []string{"tex", "std"} {
+		wdEnter(tr.E{"op": "construct", "ctor": kind})
+		s, o, c := ctor(name, kind, init, size, spare)
+		wdLeave()
+		e := tr.E{"ev": "reset", "subject": name, "src": src, "ctor": kind, "init": tr.Ints(init),
+			"size": size, "spare": spare, "cap": c, "obs": o, "lazy": lazy}
+		if name == "tex" {
+			r.tex = s
 			wt.Emit(e)
 		} else {
+			r.std = s
 			ws.Emit(e)
 		}
+	}
+	if r.std == nil {
+		tr.Fatal("the reference constructor %s(%d bytes, size %d) panicked", kind, len(init), size)
+	}
+	if r.tex == nil {
+		return nil // recorded; there is no buffer to continue with
 	}
 	return r
 }
 
-func base(b bufAPI) *byte {
+// texShape reads capacity, start address and length of tex's storage for the coverage statistics
+// and for sizes near its growth thresholds.  Never judged, never trusted: nonsense becomes zeros.
+func texShape(b bufAPI) (c int, p *byte, l, free int) {
+	defer func() {
+		if recover() != nil {
+			c, p, l, free = 0, nil, 0, 0
+		}
+	}()
 	bs := b.Bytes()
-	bs = bs[:cap(bs)]
-	if len(bs) == 0 {
-		return nil
+	c, l, free = b.Cap(), b.Len(), cap(bs)-len(bs)
+	if bs = bs[:cap(bs)]; len(bs) > 0 {
+		p = &bs[0]
 	}
-	return &bs[0]
+	if c < 0 || c > 1<<24 || l < 0 || l > 1<<24 {
+		c, l, free = 0, 0, 0
+	}
+	return
 }
 
-var consuming = map[string]bool{"read": true, "next": true, "rbyte": true, "rrune": true, "writeto": true}
-var appending = map[string]bool{"write": true, "wstr": true, "wbyte": true, "wrune": true, "readfrom": true, "grow": true}
+var consuming = map[string]bool{"read": true, "next": true, "rbyte": true, "rrune": true, "writeto": true, "pipeto": true}
+var appending = map[string]bool{"write": true, "wstr": true, "wbyte": true, "wrune": true, "readfrom": true, "grow": true,
+	"pipefrom": true}
 
 // step executes one action on both buffers and logs it.  Returns false if the action is not
 // applicable (ReWrite after something was consumed) and was skipped.
@@ -397,13 +605,17 @@ func (r *run) step(a act) bool {
 		r.afterGrowUnr++
 	}
 	// which way did tex's grow() go?  (coverage statistics only, never judged)
-	c0, p0, l0 := r.tex.b.Cap(), base(r.tex.b), r.tex.b.Len()
+	c0, p0, l0, _ := texShape(r.tex.b)
 	// which actions are issued next must never depend on the implementation under test: the
 	// applicability bookkeeping (dirty / lastRead) follows the reference bytes.Buffer
 	ls0 := r.std.b.Len()
-	rt := r.tex.do(a)
+	ar := a.rec()
+	wdEnter(ar)
+	rt := r.tex.do(a, r.lazy)
+	ot := r.tex.obs()
+	wdLeave()
 	if appending[a.Op] {
-		c1, p1 := r.tex.b.Cap(), base(r.tex.b)
+		c1, p1, _, _ := texShape(r.tex.b)
 		switch {
 		case c1 != c0 && c0 == 0:
 			r.paths["first-alloc"]++
@@ -420,30 +632,62 @@ func (r *run) step(a act) bool {
 			r.paths["reslice"]++
 		}
 	}
-	rs := r.std.do(a)
-	ot, os := r.tex.obs(), r.std.obs()
-	r.wt.Emit(tr.E{"ev": "call", "a": a.rec(), "r": rt.rec(), "obs": ot})
-	r.ws.Emit(tr.E{"ev": "call", "a": a.rec(), "r": rs.rec(), "obs": os})
+	rs := r.std.do(a, r.lazy)
+	os := r.std.obs()
+	if r.lazy {
+		r.pt = append(r.pt, pending{ar, rt, ot})
+		r.ps = append(r.ps, pending{ar, rs, os})
+	} else {
+		r.wt.Emit(tr.E{"ev": "call", "a": ar, "r": rt.rec(), "obs": ot, "inmut": !rt.Mut})
+		r.ws.Emit(tr.E{"ev": "call", "a": ar, "r": rs.rec(), "obs": os, "inmut": !rs.Mut})
+		if differ(rt.rec(), ot, rs.rec(), os) {
+			r.diverged = true // statistics only; the verdict is TLC's
+		}
+	}
 	r.ops[a.Op]++
-	if n := r.tex.b.Len(); n > r.maxLen {
+	if n := r.std.b.Len(); n > r.maxLen {
 		r.maxLen = n
 	}
-	if fmt.Sprint(rt, ot) != fmt.Sprint(rs, os) {
-		r.diverged = true // statistics only; the verdict is TLC's
-	}
+	consumed := consuming[a.Op] && r.std.b.Len() < ls0
 	switch {
 	case a.Op == "reset" || (a.Op == "trunc" && a.N == 0):
 		r.dirty = false
-	case consuming[a.Op] && r.std.b.Len() < ls0:
+	case consumed:
 		r.dirty = true
 	}
 	switch a.Op {
 	case "len", "bytes", "string", "nilstr":
 	default:
-		r.lastRead = consuming[a.Op] && a.Op != "writeto" && r.std.b.Len() < ls0
+		r.lastUnread = ""
+		if (a.Op == "unbyte" || a.Op == "unrune") && r.lastRead != "" {
+			r.lastUnread = r.lastRead
+		}
+		r.lastRead = ""
+		if consumed && a.Op != "writeto" && a.Op != "pipeto" {
+			r.lastRead = a.Op
+		}
 		r.lastGrow = a.Op == "grow"
 	}
 	return true
+}
+
+// differ: replies or unread contents differ (Cap() is not compared)
+func differ(rt, ot, rs, os tr.E) bool {
+	return fmt.Sprint(rt, ot["len"], ot["b"]) != fmt.Sprint(rs, os["len"], os["b"])
+}
+
+// end of a history: a lazy history renders what the calls handed back only now
+func (r *run) end() {
+	for i := range r.pt {
+		pt, ps := r.pt[i], r.ps[i]
+		et, es := pt.r.rec(), ps.r.rec()
+		r.wt.Emit(tr.E{"ev": "call", "a": pt.a, "r": et, "obs": pt.obs, "inmut": !pt.r.Mut})
+		r.ws.Emit(tr.E{"ev": "call", "a": ps.a, "r": es, "obs": ps.obs, "inmut": !ps.r.Mut})
+		if differ(et, pt.obs, es, ps.obs) {
+			r.diverged = true
+		}
+	}
+	r.pt, r.ps = nil, nil
 }
 
 // ---------------------------------------------------------------- generators
@@ -497,11 +741,12 @@ func payload(rng *rand.Rand, n int) []int {
 	return p[:n]
 }
 
-// size near the thresholds of grow(): free space, half capacity, small buffer, MinRead
-func edgeSize(rng *rand.Rand, b bufAPI) int {
-	bs := b.Bytes()
-	free := cap(bs) - len(bs)
-	l, c := b.Len(), b.Cap()
+// size near the thresholds of grow(): free space, half capacity, small buffer, MinRead.  Length from
+// the reference; capacity and free space from tex (sanitised, see texShape) because its thresholds
+// are the ones to hit - they only bias the choice.
+func (r *run) edgeSize(rng *rand.Rand) int {
+	c, _, _, free := texShape(r.tex.b)
+	l := r.std.b.Len()
 	cands := []int{0, 1, 2, 3, 4, 5, 7, 8, 63, 64, 65, 127, 128, 129, 511, 512, 513,
 		free - 1, free, free + 1, c/2 - l - 1, c/2 - l, c/2 - l + 1, c - l, c - l + 1, c, c + 1, 2*c + 1,
 		l - 1, l, l + 1, l / 2}
@@ -521,11 +766,11 @@ func edgeSize(rng *rand.Rand, b bufAPI) int {
 	return n
 }
 
-func script(rng *rand.Rand, b bufAPI) []rstep {
+func (r *run) script(rng *rand.Rand) []rstep {
 	n := 1 + rng.Intn(3)
 	var s []rstep
 	for i := 0; i < n; i++ {
-		sz := edgeSize(rng, b)
+		sz := r.edgeSize(rng)
 		if sz > bytes.MinRead {
 			sz = bytes.MinRead
 		}
@@ -534,51 +779,63 @@ func script(rng *rand.Rand, b bufAPI) []rstep {
 		}
 		s = append(s, rstep{B: payload(rng, sz), E: "nil"})
 	}
-	switch x := rng.Intn(10); {
-	case x < 5:
-		s[len(s)-1].E = "EOF" // data together with EOF
-	case x < 7:
-		s = append(s, rstep{B: []int{}, E: "EOF"})
-	case x < 9:
-		s[len(s)-1].E = "boom"
-	default:
-		s = append(s, rstep{B: []int{}, E: "neg"})
+	// every way a source can end: the error alone or together with the last data
+	kinds := []string{"EOF", "EOF", "EOF", "boom", "wrapEOF", "unexpEOF", "panic", "neg"}
+	k := kinds[rng.Intn(len(kinds))]
+	if k == "neg" || k == "panic" || rng.Intn(2) == 0 {
+		s = append(s, rstep{B: []int{}, E: k})
+	} else {
+		s[len(s)-1].E = k // data together with the error
 	}
 	return s
 }
 
+// argument at the edges of a length l, now and then at the ends of the int range
+func edgeArg(rng *rand.Rand, l int) int {
+	return []int{0, 1, l - 1, l, l + 1, l / 2, -1, rng.Intn(l + 2), math.MaxInt32, -math.MaxInt32}[rng.Intn(10)]
+}
+
 func (r *run) randAct(rng *rand.Rand) act {
-	b := r.tex.b
-	l := b.Len()
+	l := r.std.b.Len()
 	// Unread* is interesting right after a read, and (excluded from the comparison, but it must
 	// not crash or corrupt) right after Grow
-	if r.lastRead && rng.Intn(100) < 40 || r.lastGrow && rng.Intn(100) < 15 {
+	if r.lastRead != "" && rng.Intn(100) < 40 || r.lastGrow && rng.Intn(100) < 15 {
 		if rng.Intn(2) == 0 {
 			return act{Op: "unbyte"}
 		}
 		return act{Op: "unrune"}
+	}
+	// ... and the same read once more on what was given back: decoding the same source twice
+	if r.lastUnread != "" && rng.Intn(100) < 50 {
+		switch r.lastUnread {
+		case "rbyte", "rrune":
+			return act{Op: r.lastUnread}
+		}
+		return act{Op: "rrune"}
 	}
 	x := rng.Intn(1000)
 	if l > 400 && rng.Intn(3) > 0 { // keep the logged contents small: drain
 		x = 400 + rng.Intn(370)
 	}
 	switch {
-	case x < 130:
-		return act{Op: "write", P: payload(rng, edgeSize(rng, b))}
-	case x < 200:
-		return act{Op: "wstr", P: payload(rng, edgeSize(rng, b))}
-	case x < 260:
+	case x < 120:
+		return act{Op: "write", P: payload(rng, r.edgeSize(rng))}
+	case x < 185:
+		return act{Op: "wstr", P: payload(rng, r.edgeSize(rng))}
+	case x < 245:
 		return act{Op: "wbyte", C: rng.Intn(256)}
-	case x < 360:
+	case x < 340:
 		return act{Op: "wrune", R: randRune(rng)}
+	case x < 385:
+		return act{Op: "readfrom", S: r.script(rng)}
 	case x < 400:
-		return act{Op: "readfrom", S: script(rng, b)}
+		return act{Op: "pipefrom", P: payload(rng, r.edgeSize(rng))}
 	case x < 500:
-		return act{Op: "read", N: edgeSize(rng, b)}
+		return act{Op: "read", N: r.edgeSize(rng)}
 	case x < 570:
-		n := edgeSize(rng, b)
-		if rng.Intn(12) == 0 {
-			n = -1 - rng.Intn(3)
+		n := r.edgeSize(rng)
+		if rng.Intn(10) == 0 {
+			n = []int{-1, -2, -3, -math.MaxInt32, math.MaxInt32}[rng.Intn(5)]
 		}
 		return act{Op: "next", N: n}
 	case x < 630:
@@ -588,34 +845,34 @@ func (r *run) randAct(rng *rand.Rand) act {
 	case x < 730:
 		return act{Op: "reset"}
 	case x < 770:
-		n := []int{0, 1, l - 1, l, l + 1, l / 2, -1, rng.Intn(l + 2)}[rng.Intn(8)]
-		return act{Op: "trunc", N: n}
-	case x < 830:
-		n := edgeSize(rng, b)
+		return act{Op: "trunc", N: edgeArg(rng, l)}
+	case x < 825:
+		n := r.edgeSize(rng)
 		if rng.Intn(10) == 0 {
-			n = -1 - rng.Intn(3)
+			n = []int{-1, -2, -3, -math.MaxInt32}[rng.Intn(4)]
 		}
 		return act{Op: "grow", N: n}
 	case x < 835:
-		return act{Op: "growhuge"}
-	case x < 870:
-		k := []int{0, 1, l - 1, l, l, l, l + 1, l / 2}[rng.Intn(8)]
+		return act{Op: "growhuge", H: rng.Intn(5)}
+	case x < 865:
+		k := []int{0, 1, l - 1, l, l, l, l + 1, l / 2, math.MaxInt32}[rng.Intn(9)]
 		if k < 0 {
 			k = 0
 		}
-		e := "nil"
-		if rng.Intn(4) == 0 {
-			e = "boom"
-		}
+		e := []string{"nil", "nil", "nil", "nil", "boom", "EOF", "short write", "panic"}[rng.Intn(8)]
 		return act{Op: "writeto", K: k, E: e}
-	case x < 885:
+	case x < 875:
+		return act{Op: "pipeto", P: payload(rng, []int{0, 1, 5, 64, 200}[rng.Intn(5)])}
+	case x < 887:
 		return act{Op: "unbyte"}
 	case x < 900:
 		return act{Op: "unrune"}
-	case x < 920:
+	case x < 915:
 		return act{Op: "len"}
-	case x < 940:
+	case x < 930:
 		return act{Op: "bytes"}
+	case x < 945:
+		return act{Op: "poke", I: []int{0, 1, l - 1, l, l + 1, l / 2, rng.Intn(l + 1)}[rng.Intn(7)], C: rng.Intn(256)}
 	case x < 960:
 		return act{Op: "string"}
 	case x < 963:
@@ -624,8 +881,7 @@ func (r *run) randAct(rng *rand.Rand) act {
 		if r.dirty {
 			return act{Op: "rbyte"}
 		}
-		pos := []int{0, 1, l - 1, l, l + 1, l / 2, -1, rng.Intn(l + 1)}[rng.Intn(8)]
-		return act{Op: "rewrite", Pos: pos, P: payload(rng, []int{0, 1, 2, 5, l, l + 3}[rng.Intn(6)]%64)}
+		return act{Op: "rewrite", Pos: edgeArg(rng, l), P: payload(rng, []int{0, 1, 2, 5, l, l + 3}[rng.Intn(6)]%64)}
 	}
 }
 
@@ -658,12 +914,44 @@ func main() {
 	seed := flag.Int64("seed", 1, "seed")
 	nhist := flag.Int("hist", 300, "random histories")
 	maxops := flag.Int("maxops", 90, "max operations per history")
+	flag.DurationVar(&hangAfter, "hang", hangAfter, "a call into tex.Buffer that takes longer is recorded as a hang")
 	flag.Parse()
 	rng := rand.New(rand.NewSource(*seed))
 	paths, ops := map[string]int{}, map[string]int{}
 	wt, ws := tr.Create(*out), tr.Create(*ref)
-	diverged, skipped, maxLen, agu := 0, 0, 0, 0
+	ws.NoSync = true // crash evidence is the tex trace; the check drops a torn last line of this one
+	diverged, skipped, maxLen, agu, nlazy, noBuffer := 0, 0, 0, 0, 0, 0
+	stats := func(hung bool) {
+		st, _ := json.Marshal(map[string]interface{}{"events": wt.N(), "paths": paths, "ops": ops,
+			"histories_where_tex_and_std_differ": diverged, "skipped_plan_steps": skipped, "max_len": maxLen,
+			"unread_after_grow": agu, "lazy_histories": nlazy, "constructor_panics": noBuffer, "hang": hung})
+		fmt.Printf("STATS %s\n", st)
+	}
+	go func() { // watchdog
+		var seen uint64
+		var since time.Time
+		for {
+			time.Sleep(200 * time.Millisecond)
+			wdMu.Lock()
+			in, tick, a := wdInTex, wdTick, wdAct
+			wdMu.Unlock()
+			if !in || tick != seen {
+				seen, since = tick, time.Now()
+				continue
+			}
+			if time.Since(since) < hangAfter {
+				continue
+			}
+			// the main goroutine is inside tex.Buffer and stays there: it does not use the writers
+			wt.Emit(tr.E{"ev": "hang", "a": a, "after_ms": int(hangAfter / time.Millisecond)})
+			wt.Close()
+			ws.Close()
+			stats(true)
+			os.Exit(0)
+		}
+	}()
 	finish := func(r *run) {
+		r.end()
 		if r.diverged {
 			diverged++
 		}
@@ -671,6 +959,18 @@ func main() {
 			maxLen = r.maxLen
 		}
 		agu += r.afterGrowUnr
+	}
+	nrun := 0
+	begin := func(src, kind string, init []byte, size, spare int) *run {
+		nrun++
+		lazy := nrun%2 == 0
+		r := start(wt, ws, src, kind, init, size, spare, lazy, paths, ops)
+		if r == nil {
+			noBuffer++
+		} else if lazy {
+			nlazy++
+		}
+		return r
 	}
 
 	if *plans != "" {
@@ -681,7 +981,10 @@ func main() {
 			if len(p) == 0 || p[0].Op != "init" {
 				tr.Fatal("plan %s does not start with init", f)
 			}
-			r := start(wt, ws, "plan:"+filepath.Base(f), p[0].Ctor, toBytes(p[0].Init), p[0].Size, []int{0, 0, 5, 100}[i%4], paths, ops)
+			r := begin("plan:"+filepath.Base(f), p[0].Ctor, toBytes(p[0].Init), p[0].Size, []int{0, -1, 5, 100}[i%4])
+			if r == nil {
+				continue
+			}
 			for _, a := range p[1:] {
 				if !r.step(a) {
 					skipped++
@@ -692,19 +995,22 @@ func main() {
 	}
 	ctors := []string{"zero", "zero", "new", "newstr", "sized", "sized"}
 	for i := 0; i < *nhist; i++ {
-		ctor := ctors[rng.Intn(len(ctors))]
+		kind := ctors[rng.Intn(len(ctors))]
 		var init []byte
 		size, spare := 0, 0
-		switch ctor {
+		switch kind {
 		case "new":
-			init = toBytes(payload(rng, []int{0, 1, 10, 64, 65, 200}[rng.Intn(6)]))
-			spare = []int{0, 0, 1, 64, 600}[rng.Intn(5)]
+			init = toBytes(payload(rng, []int{0, 0, 1, 10, 63, 64, 65, 200}[rng.Intn(8)]))
+			spare = []int{-1, 0, 0, 1, 63, 64, 600}[rng.Intn(7)] // -1: NewBuffer(nil) when there is no content
 		case "newstr":
 			init = toBytes(payload(rng, []int{0, 1, 10, 64, 65, 200}[rng.Intn(6)]))
 		case "sized":
-			size = []int{0, 1, 8, 63, 64, 65, 512, 1000, rng.Intn(3000)}[rng.Intn(9)]
+			size = []int{0, 1, 2, 8, 31, 63, 64, 65, 511, 512, 513, 1000, rng.Intn(3000)}[rng.Intn(13)]
 		}
-		r := start(wt, ws, "rand", ctor, init, size, spare, paths, ops)
+		r := begin("rand", kind, init, size, spare)
+		if r == nil {
+			continue
+		}
 		n := 10 + rng.Intn(*maxops)
 		for j := 0; j < n; j++ {
 			if !r.step(r.randAct(rng)) {
@@ -713,10 +1019,8 @@ func main() {
 		}
 		finish(r)
 	}
+	wdLeave()
 	wt.Close()
 	ws.Close()
-	st, _ := json.Marshal(map[string]interface{}{"events": wt.N(), "paths": paths, "ops": ops,
-		"histories_where_tex_and_std_differ": diverged, "skipped_plan_steps": skipped, "max_len": maxLen,
-		"unread_after_grow": agu})
-	fmt.Printf("STATS %s\n", st)
+	stats(false)
 }
